@@ -312,6 +312,23 @@ func runC10(p *an.Prog, r *an.Run, tier string) {
 			r.Ok("guarded-fields", k, token.NoPos, "named exception: "+why)
 			continue
 		}
+		// reader state of a codec: touched by ReadMessage (and helpers only it calls) alone, and ReadMessage runs on
+		// the connection's single reader goroutine (C10.single-reader) — no lock needed, whatever mutexes the type has
+		// for its writers
+		readerOnly := len(accesses[k]) > 0
+		for _, a := range accesses[k] {
+			top := a.fn
+			for top.Parent() != nil {
+				top = top.Parent()
+			}
+			if !(top.Name() == "ReadMessage" || onlyCalledFromReadMessage(p, top)) {
+				readerOnly = false
+			}
+		}
+		if readerOnly {
+			r.Ok("guarded-fields", k, token.NoPos, "reader-side state: accessed by ReadMessage only (single reader per connection)")
+			continue
+		}
 		var bad []string
 		for _, a := range accesses[k] {
 			t := structOfFieldAccess(a.fa)
@@ -714,6 +731,7 @@ func checkNoBlockUnderLock(p *an.Prog, r *an.Run, rule string, want func(*ssa.Fu
 
 // checkOneTxn: every badgerStore method performs all accesses in exactly one Update/View region.
 func checkOneTxn(p *an.Prog, r *an.Run, rule string) {
+	checkTxnWrappers(p, r)
 	bs := p.Named("pool/store/badger", "badgerStore")
 	if bs == nil {
 		r.Undec(rule, "badgerStore", token.NoPos, "type not found")
@@ -743,6 +761,9 @@ func checkOneTxn(p *an.Prog, r *an.Run, rule string) {
 				for _, cal := range p.CalleesAt(c) {
 					if cal == nil || !p.InRepo(cal) || cal == m || cal.Parent() != nil {
 						continue
+					}
+					if _, _, isW := txnWrapperInfo(p, cal); isW {
+						continue // counted as the method's own region
 					}
 					if w, ok := p.ReachesCall(cal, isTxnStart); ok {
 						bad = append(bad, "also runs the transaction of "+an.FuncName(cal)+" ("+p.Pos(w.Pos())+", called at "+p.Pos(c.Pos())+"): the method's accesses are spread over several transactions")
